@@ -519,6 +519,7 @@ func init() {
 		"(*time.Ticker).Stop":    extNop,
 		cometPath + ".vYield":    func(fr *frame, a []value) value { schedYieldAll(); return nil },
 		cometPath + ".vPreempt":  func(fr *frame, a []value) value { S.preempt = asInt(a[0]); return nil },
+		cometPath + ".vLockset": func(fr *frame, a []value) value { LS.on = a[0].(bool); return nil },
 		cometPath + ".vSchedFork": func(fr *frame, a []value) value { S.forkPick = a[0].(bool); return nil },
 		cometPath + ".vThreads":  func(fr *frame, a []value) value { return len(S.threads) },
 	} {
